@@ -391,3 +391,4 @@ RENAME_FUNCS = [(F, 'crop_samples'), (F, 'crop_wav_data'), (F, 'repeat_samples_t
 EXPLANATION += (' Location-independent additions: WAV/mono-untouched (channels folded only after the rank is established), SCALE/divide-not-reciprocal, STEREO/slots for both layout idioms.')
 EXPLANATION += (' Round 7: ' + 'STEREO/zero-padding (no cyclic fill with np.resize / np.tile).')
 EXPLANATION += (' Rounds 9-10: ' + 'PITFALL/neg-zero-slice over audio_io, with a witness search over small parameter values (pitfalls.zero_witness).')
+EXPLANATION += (' Round 11: ' + 'CROP/scenarios; SCALE/operand-is-input looks at every return.')
